@@ -12,6 +12,7 @@ import (
 
 	soy "github.com/robfig/soy"
 	"github.com/robfig/soy/data"
+	"github.com/robfig/soy/soyhtml"
 	"github.com/robfig/soy/soyjs"
 )
 
@@ -23,13 +24,14 @@ func init() {
 	register(&Prop{
 		ID: "C13glob",
 		Rule: "bundles given their globals in 2-3 AddGlobalsMap calls with 0, 1 or several overlapping names, compiled 60 times each; oracle: one outcome (accept, or one error text) per bundle; " +
-			"non-trivial = at least two names overlap. Plus: generated bundles written to disk (nested directories, a non-.soy file, a globals file) compiled through AddTemplateDir / AddTemplateFile / AddGlobalsFile = the same contents given as strings under the same paths (decision, error text with the path, templates, renders)",
+			"non-trivial = at least two names overlap. Plus: generated bundles written to disk (nested directories, a non-.soy file, a globals file) compiled through AddTemplateDir / AddTemplateFile / AddGlobalsFile = the same contents given as strings under the same paths (decision, error text with the path, templates, renders). Plus: failures found while evaluating (a globals file whose expression divides by zero or misuses a function; a render that does) observed from the caller's goroutine, a fresh goroutine and a deeper call stack: one error text",
 		Direct: directC13glob,
 	})
 }
 
 func directC13glob(g *G, rep *Report) {
 	directC13files(g, rep)
+	directC13errtext(g, rep)
 	r := g.R.Fork()
 	names := []string{"A", "B", "C", "D", "E", "app.NAME", "app.MAX", "Z_9"}
 	src := "{namespace n}\n/** */\n{template .t}\n{A}\n{/template}\n"
@@ -196,4 +198,104 @@ func directC13files(g *G, rep *Report) {
 		}
 		os.RemoveAll(dir)
 	}
+}
+
+// Failures found by evaluating: the same sources and globals give the same error text whoever calls and however often
+// (the text must not carry goroutine ids, stack depths or addresses).
+func directC13errtext(g *G, rep *Report) {
+	tmp, err := os.MkdirTemp(filepath.Dir(mustExe()), "c13err-")
+	if err != nil {
+		rep.Violations = append(rep.Violations, Viol{Key: "c13files-setup", What: "cannot create a scratch directory: " + err.Error()})
+		return
+	}
+	defer os.RemoveAll(tmp)
+	var deep func(n int, f func())
+	deep = func(n int, f func()) {
+		if n == 0 {
+			f()
+			return
+		}
+		deep(n-1, f)
+	}
+	observeAll := func(f func() string) map[string]int {
+		out := map[string]int{}
+		var mu = make(chan string, 8)
+		out[f()]++
+		out[f()]++
+		go func() { mu <- f() }()
+		out[<-mu]++
+		deep(7+g.R.Intn(9), func() { out[f()]++ })
+		go func() { deep(3, func() { mu <- f() }) }()
+		out[<-mu]++
+		return out
+	}
+	globalsFiles := []string{"X = 1 % 0\n", "A = 1\nX = 7 % (3 - 3)\n", "X = round(1, 'a')\n", "X = length(5)\n", "X = keys(1)\n", "X = nope(1)\n", "X = $a\n", "X = [1][2.5]\n", "X = -'a'\n", "X = 1 / 0\n"}
+	for i, gl := range globalsFiles {
+		p := filepath.Join(tmp, "g"+strconv.Itoa(i)+".txt")
+		os.WriteFile(p, []byte(gl), 0o644)
+		outcomes := observeAll(func() string {
+			s := "PANIC"
+			func() {
+				defer func() { recover() }()
+				_, err := soy.NewBundle().AddGlobalsFile(p).AddTemplateString("a.soy", "{namespace n}\n/** */\n{template .t}{X}{/template}\n").Compile()
+				s = errText(err)
+			}()
+			return s
+		})
+		rep.Evaluations++
+		rep.Distribution["errtext:globals"]++
+		if len(outcomes) != 1 {
+			if len(rep.Violations) < 10 {
+				rep.Violations = append(rep.Violations, Viol{Key: "c13err:globals:" + strings.TrimSpace(gl), What: "a bundle with the globals file " + strconv.Quote(gl) + " is compiled with " + strconv.Itoa(len(outcomes)) + " different error texts over 5 calls (same goroutine twice, a fresh goroutine, deeper call stacks)",
+					Req: req("c13err", hxs(gl)), Note: gl, Impl: firstLines(outcomes), Want: "one outcome"})
+			}
+		} else {
+			for k := range outcomes {
+				if k != "" && k != "<nil>" {
+					rep.DistinctNT++
+				}
+			}
+		}
+	}
+	bodies := []string{"{$a % 0}", "{round($a, 'x')}", "{$a|truncate:'x'}", "{length($a)}", "{keys($a)[0]}", "{$a.b.c}", "{$a|insertWordBreaks:'q'}", "{if $a / 0 > 1}x{/if}", "{augmentMap($a, $a)}", "{strContains($a, 1)}", "{range($a, 'x')}"}
+	for _, body := range bodies {
+		src := "{namespace n}\n/** @param a */\n{template .t}\nab{sp}" + body + "\n{/template}\n"
+		reg, err := compileBundle([]srcFile{{"a.soy", src}})
+		if err != nil {
+			rep.Distribution["errtext:render-rejected"]++
+			continue
+		}
+		outcomes := observeAll(func() string {
+			s := "PANIC"
+			func() {
+				defer func() { recover() }()
+				var buf bytes.Buffer
+				err := soyhtml.NewTofu(reg).NewRenderer("n.t").Execute(&buf, data.Map{"a": data.Int(1)})
+				s = buf.String() + " | " + errText(err)
+			}()
+			return s
+		})
+		rep.Evaluations++
+		rep.Distribution["errtext:render"]++
+		if len(outcomes) != 1 {
+			if len(rep.Violations) < 20 {
+				rep.Violations = append(rep.Violations, Viol{Key: "c13err:render:" + body, What: "rendering " + body + " with a = 1 gives " + strconv.Itoa(len(outcomes)) + " different results over 5 calls (same goroutine twice, a fresh goroutine, deeper call stacks)",
+					Req: req("c13err", hxs(src)), Note: body, Impl: firstLines(outcomes), Want: "one outcome"})
+			}
+		} else {
+			rep.DistinctNT++
+		}
+	}
+}
+
+func firstLines(m map[string]int) string {
+	var ks []string
+	for k := range m {
+		if len(k) > 300 {
+			k = k[:300] + "…"
+		}
+		ks = append(ks, k)
+	}
+	sort.Strings(ks)
+	return strings.Join(ks, " ||| ")
 }
